@@ -80,6 +80,110 @@ class Fn:
         self._thr = None
         self.cur_site = ("entry",)
         self._roundtrip = None
+        self._flags = None
+        self._between = {}
+        self.flag_snap = {}
+
+    # ---- boolean flags: `let ok = a < 24 && b < 60;` ... `if ok { .. }` --------------------------
+    def flags(self):
+        """{bool local: (id of its single computed definition, the constant all its other definitions assign)} for locals written as
+        `const c` on some branches and by one computed assignment on another (the lowering of `&&` / `||` chains stored in a variable)"""
+        if self._flags is None:
+            defs = {}
+            for b in self.blocks:
+                if b.get("cleanup"):
+                    continue
+                for st in b["s"]:
+                    if st["k"] == "assign" and not st["pl"]["p"]:
+                        defs.setdefault(st["pl"]["l"], []).append(st)
+                t = b["t"]
+                if t["k"] == "call" and t.get("dest") and not t["dest"]["p"]:
+                    defs.setdefault(t["dest"]["l"], []).append(t)
+            out = {}
+            for l, ds in defs.items():
+                if self.E.ty(self.ltys[l]).get("k") != "bool" or len(ds) < 2:
+                    continue
+                consts = [d for d in ds if d.get("k") == "assign" and d["rv"]["k"] == "use" and d["rv"]["x"]["k"] == "const" and isinstance(d["rv"]["x"].get("v"), bool)]
+                other = [d for d in ds if d not in consts]
+                if len(other) == 1 and other[0].get("k") == "assign" and len({d["rv"]["x"]["v"] for d in consts}) == 1:
+                    out[l] = (id(other[0]), consts[0]["rv"]["x"]["v"])
+            self._flags = out
+        return self._flags
+
+    def flag_between(self, l, sb):
+        """locals that may be (re)defined on some way from the computed definition of flag l to the end of block sb (static, conservative)"""
+        key = (l, sb)
+        if key not in self._between:
+            did = self.flags()[l][0]
+            dblock = None
+            after = set()
+            for bi, b in enumerate(self.blocks):
+                seen = False
+                for st in b["s"]:
+                    if id(st) == did:
+                        dblock, seen = bi, True
+                        continue
+                    if seen and st["k"] == "assign":
+                        after.add(st["pl"]["l"])
+            if dblock is None:
+                self._between[key] = None
+                return None
+            # blocks on some path dblock -> ... -> sb  (forward from dblock's successors, backward from sb)
+            fwd, st_ = set(), list(self.cfg.succ[dblock])
+            while st_:
+                x = st_.pop()
+                if x not in fwd:
+                    fwd.add(x)
+                    st_.extend(self.cfg.succ[x])
+            bwd, st_ = set(), [sb]
+            while st_:
+                x = st_.pop()
+                if x not in bwd:
+                    bwd.add(x)
+                    st_.extend(self.cfg.pred[x])
+            mid = fwd & bwd
+            defs = set(after)
+            for x in mid:
+                for st in self.blocks[x]["s"]:
+                    if st["k"] == "assign":
+                        defs.add(st["pl"]["l"])
+                t = self.blocks[x]["t"]
+                if x != sb and t["k"] == "call" and t.get("dest"):
+                    defs.add(t["dest"]["l"])
+            if dblock in mid:
+                for st in self.blocks[dblock]["s"]:
+                    if st["k"] == "assign":
+                        defs.add(st["pl"]["l"])
+            self._between[key] = defs
+        return self._between[key]
+
+    def flag_meet(self, s2, l, v, vals, sb=None):
+        """on the edge where flag l differs from its constant, the state is also the state its computed definition left behind (for locals not redefined since)"""
+        fl = self.flags().get(l)
+        snap = self.flag_snap.get(l)
+        if fl is None or snap is None:
+            return True
+        redefined = self.flag_between(l, sb) if sb is not None else None
+        if redefined is None:
+            return True
+        truth = (v == 1) if v is not None else (0 in vals)
+        if truth == bool(fl[1]):
+            return True
+        for k, val in snap.loc.items():
+            if k == l or val == BOT or val[0] != "i":
+                continue
+            if s2.ver.get(k, 0) != snap.ver.get(k, 0) or k in redefined:
+                continue
+            cur = s2.loc.get(k)
+            if cur is None or cur == BOT or cur[0] != "i":
+                continue
+            lo, hi = max(cur[1], val[1]), min(cur[2], val[2])
+            if lo > hi:
+                return False
+            s2.loc[k] = ("i", lo, hi)
+        if l in snap.cmp:
+            return self.apply_cmp(s2, snap.cmp[l], truth)
+        return True
 
     # ---- checked narrowing: `let y = x as T; if y as U != x { reject }` ------------------------
     def roundtrip(self):
@@ -667,6 +771,8 @@ class Fn:
         if not proj and facts:
             kind, f = facts
             getattr(st, kind)[pl["l"]] = f
+        if not proj and pl["l"] in self.flags() and self.flags()[pl["l"]][0] == id(s):
+            self.flag_snap[pl["l"]] = st.clone()
 
     def src_of(self, st, o):
         """source descriptor of an operand for later refinement: ('pl', local, proj, ver) or None"""
@@ -1161,6 +1267,10 @@ class Fn:
                     feasible = self.refine_discr(s2, st.dsc[l], v, vals)
                     if feasible and v is not None:
                         s2.loc[l] = ("i", v, v)
+                elif self.root_flag(st, l) is not None and self.root_flag(st, l) in self.flag_snap:
+                    feasible = self.flag_meet(s2, self.root_flag(st, l), v, vals, bi)
+                    if feasible and v is not None:
+                        s2.loc[l] = ("i", v, v)
                 else:
                     if v is not None:
                         feasible = self.refine_local_copies(s2, l, ("i", v, v))
@@ -1177,6 +1287,15 @@ class Fn:
             if feasible:
                 outs.append((b, s2))
         return outs
+
+    def root_flag(self, st, l):
+        """the flag local that l is (a plain copy of)"""
+        if l in self.flags():
+            return l
+        c = st.copy.get(l)
+        if c is not None and not c[2] and c[1] in self.flags() and st.ver.get(c[1], 0) == c[3]:
+            return c[1]
+        return None
 
     def refine_discr(self, st, src, v, vals):
         E = self.E
